@@ -538,7 +538,7 @@ let str_of_text t = String.concat "," (List.map (fun c -> string_of_int (int_of_
 let not_found_str = "HTTP/1.0 404 Not Found\r\nContent-Type: text/plain\r\n\r\nnot found"
 let not_found_bytes = List.map (fun c -> n_of_int (Char.code c)) (List.init (String.length not_found_str) (String.get not_found_str))
 let cold_outs : int list list ref = ref []
-type netop = NFetch of int | NUnknown of jv * int | NListing of int * int * int
+type netop = NFetch of int | NUnknown of jv * int | NListing of int * int * int | NWebfinger of int list
 type netcase = { cap : int; base : int; universe : n list array; world : (int * n list * int) list; modes : int list; ops : netop list }
 let take_netcase args =
   let (cap, r) = take1 args in
@@ -556,6 +556,7 @@ let take_netcase args =
       let (k, r) = take1 r in
       let (o, r) = (if k = 0 then let (ui, r) = take1 r in (NFetch ui, r)
                     else if k = 2 || k = 3 then let (ui, r) = take1 r in let (cnt, r) = take1 r in (NListing (k, ui, cnt), r)
+                    else if k = 4 then let (bs, r) = take_list r in (NWebfinger bs, r)
                     else let (v, r) = take_jv r in let (si, r) = take1 r in (NUnknown (v, si), r)) in
       let (rest, r) = ops (n - 1) r in (o :: rest, r) in
   let (ops, _) = ops nops r in
@@ -687,6 +688,17 @@ let run_net args lib =
          | None -> out := !out @ [[1]]
          | Some vs -> out := !out @ [0 :: 4 :: List.length vs :: List.concat_map (fun v -> [1; v]) vs @ [0]]);
         cold := !cold @ [[-1]]
+      | NWebfinger bs ->
+        let https_p = List.map n_of_int [104;116;116;112;115;58;47;47] in
+        let mk_url host uri =
+          let c = https_p @ host @ uri in
+          (match find_canon c with Some _ -> () | None -> Hashtbl.replace extra c { canon = c; https = true; host = host; uri = uri }); c in
+        let ((rs, c'), l) = resolve_webfinger w is_https resolve cap mk_url !cache (List.map n_of_int bs) in
+        cache := c'; log := !log @ l;
+        (match rs with
+         | WFLink h -> out := !out @ [0 :: put_jv (JStr h) @ [0]]
+         | _ -> out := !out @ [[1]]);
+        cold := !cold @ [[-1]]
       | NUnknown (v, si) ->
         let source = if si < 0 then None else (match info.(si) with Some x -> Some x.canon | None -> None) in
         let ((rs, c'), l) = fetch_unknown w is_https resolve cap parse_ref url_parse host_of !cache v source in
@@ -716,7 +728,7 @@ let orc_net args lib impl =
             let (v, r3) = take_jv r2 in
             (match op with
              | NFetch _ -> let (src, r4) = take_text r3 in proj := !proj @ [0 :: put_jv v @ put_text src]; r := r4
-             | NListing _ | NUnknown _ ->
+             | NListing _ | NUnknown _ | NWebfinger _ ->
                let (has, r4) = take1 r3 in
                if has = 0 then (proj := !proj @ [0 :: put_jv v @ [0]]; r := r4)
                else let (id, r5) = take_text r4 in (proj := !proj @ [0 :: put_jv v @ (1 :: put_text id)]; r := r5))
